@@ -272,7 +272,10 @@ static Case gen_case(uint64_t h)
   else { c.theta = std::acos(r.uniform(-1, 1)); c.phi = r.uniform(-M_PI, M_PI); }
   c.axis_scale = (c.ep == 1 || c.ep == 3) ? std::pow(10.0, r.uniform(-3, 3)) : 1.0;
   bool rect = (c.ep == 3 || c.ep == 4) || (c.ep == 0 && r.chance(0.5));
-  if (rect) { c.ap1 = r.uniform(0.01, M_PI / 2 - 0.01); c.ap2 = r.uniform(0.01, M_PI / 2 - 0.01); if (r.chance(0.3)) c.ap2 = c.ap1 * r.uniform(0.05, 0.5); }
+  if (rect) { c.ap1 = r.uniform(0.01, M_PI / 2 - 0.01); c.ap2 = r.uniform(0.01, M_PI / 2 - 0.01); if (r.chance(0.3)) c.ap2 = c.ap1 * r.uniform(0.05, 0.5); 
+    // slit windows: one half-angle 1e-3 .. 0.03 rad against a wide other one - the window then covers 0.1-2% of its envelope cone, so the
+    // direction is found after hundreds to ~1000 rejected draws (2 deviates each; the 200000-deviate bound is 80x the mean of the slowest)
+    if (r.chance(0.25)) { double slit = std::pow(10.0, r.uniform(-3, -1.5)); if (r.chance(0.5)) c.ap1 = slit; else c.ap2 = slit; } }
   else { int k = r.range(0, 5); c.ap1 = k == 0 ? 0.0 : (k == 1 ? M_PI * (1 - std::pow(10.0, r.uniform(-9, -2))) : (k == 2 ? std::pow(10.0, r.uniform(-9, -1)) : r.uniform(0, M_PI * 0.999))); c.ap2 = -1; }
   if (r.chance(0.35)) c.prior = 1 + r.next() % 1000000007ULL;
   if (r.chance(0.4)) c.prior_ev = 1 + r.next() % 1000000007ULL;
@@ -314,7 +317,7 @@ int main(int argc, char ** argv)
         if (per[sig]++) { rep.count("further_failures_same_class"); continue; }
         // shrink a little: simpler event seed / rank / code while the same class fails
         Case best = c;
-        for (int t = 0; t < 60; t++) { Case c2 = best; Rng rr(mix(k, t)); int w = rr.range(0, 3); if (w == 0) c2.evseed = rr.range(0, 20); else if (w == 1) c2.rank = std::max(-1, best.rank - 1); else if (w == 2) { c2.theta = std::round(best.theta * 10) / 10; c2.phi = std::round(best.phi * 10) / 10; c2.derive(); } else { c2.ap1 = std::round(best.ap1 * 100) / 100; if (best.rect()) c2.ap2 = std::round(best.ap2 * 100) / 100; }
+        for (int t = 0; t < 60; t++) { Case c2 = best; Rng rr(mix(k, t)); int w = rr.range(0, 3); if (w == 0) c2.evseed = rr.range(0, 20); else if (w == 1) c2.rank = std::max(-1, best.rank - 1); else if (w == 2) { c2.theta = std::round(best.theta * 10) / 10; c2.phi = std::round(best.phi * 10) / 10; c2.derive(); } else { c2.ap1 = std::round(best.ap1 * 100) / 100; if (best.rect()) { c2.ap2 = std::round(best.ap2 * 100) / 100; if (c2.ap1 < 1e-3) c2.ap1 = best.ap1; if (c2.ap2 < 1e-3) c2.ap2 = best.ap2; /* stay inside the domain: half-angle 0 is excluded */ } }
           Res r2 = meta ? check_degree_vs_radian(c2) : check_case(c2); if (!r2.ok && r2.cls == r.cls) { best = c2; r = r2; } }
         std::string path = replaydir + "/C10-" + hash_name(sig + best.json()) + ".json";
         std::ofstream(path) << "{\"property\":\"C10\",\"case\":" << best.json() << (meta ? ",\"metamorphic\":true" : "") << ",\"sig\":" << jstr(sig) << ",\"msg\":" << jstr(r.msg) << "}\n";
